@@ -107,15 +107,15 @@ __CPROVER_ensures((gv_exc != GV_BadRank && 1 <= gv_k0 && gv_k0 <= self->base.row
 //@ entry CovMat_cholDec
 GV_CANARY("CovMat_cholDec entry");
 //@ pre CovMat_cholDec 1
-cvp_lemma_first(N, W);
-cvp_lemma_end(N, W);
+CVP_USE_FIRST(N, W);
+CVP_USE_END(N, W);
 //@ loop CovMat_cholDec 1
 __CPROVER_assigns(n, row, q, k, gv_d0)
 __CPROVER_loop_invariant(1 <= row && row <= N + 1 && n == TAB(row) && q >= 0 &&
                          ((1 <= gv_k0 && gv_k0 < row) ==> q >= gv_d0))
 __CPROVER_decreases((long)N + 1 - row)
 //@ head CovMat_cholDec 1
-cvp_lemma_step(N, W, row);
+CVP_USE_STEP(N, W, row);
 CVP_EXCL_NOT_NAN(B[n]);
 if (row == gv_k0) gv_d0 = B[n];
 //@ pre CovMat_cholDec 2
@@ -128,8 +128,8 @@ __CPROVER_loop_invariant(1 <= row && row <= N + 1 && SAME(B, REP(self)) && OFF(B
 __CPROVER_decreases((long)N + 1 - row)
 //@ head CovMat_cholDec 2
 GV_ANCHOR(B, REP(self) + TAB(row));
-cvp_lemma_step(N, W, row);
-if (1 <= gv_k0 && gv_k0 <= row) cvp_lemma_mono(N, W, gv_k0, row);
+CVP_USE_STEP(N, W, row);
+if (1 <= gv_k0 && gv_k0 <= row) CVP_USE_MONO(N, W, gv_k0, row);
 gv_wrow = row;
 CVP_EXCL_NOT_NAN(*B);
 //@ tail CovMat_cholDec 2
@@ -143,7 +143,7 @@ __CPROVER_loop_invariant(1 <= n && n <= k + 1 && SAME(p, REP(self)) &&
 __CPROVER_decreases((long)k + 1 - n)
 //@ head CovMat_cholDec 3
 GV_ANCHOR(p, REP(self) + (TAB(row + n) - n));
-cvp_lemma_step(N, W, row + n);
+CVP_USE_STEP(N, W, row + n);
 //@ loop CovMat_cholDec 4
 __CPROVER_assigns(l, __CPROVER_object_whole(REP(self)))
 __CPROVER_loop_invariant(n <= l && l <= k + 1 &&
